@@ -459,7 +459,13 @@ impl TestRunnerMemoryAccessor {
 
 impl MemoryAccessor for TestRunnerMemoryAccessor {
     fn read(&mut self, address: u16, len: usize) -> Vec<u8> {
-        self.ram.read().unwrap().ram[address as usize..address as usize + len].to_vec()
+        // The 6502 address space is 16 bits wide: a read that runs past $ffff wraps around to $0000
+        let ram = self.ram.read().unwrap();
+        let mut bytes = Vec::with_capacity(len);
+        for i in 0..len {
+            bytes.push(ram.ram[(address as usize + i) & 0xffff]);
+        }
+        bytes
     }
 
     fn write(&mut self, _address: u16, _bytes: &[u8]) {
